@@ -1,8 +1,160 @@
+/-
+  C05 — line-protocol ops: the commitment table and end-to-end verification with the Lean ECDSA.
+
+    c05.table   ht i edit                       Spec.Commit.Committed → `committed` | `uncommitted`
+    c05.apply   edit tx                         Spec.Commit.apply     → tx text
+    c05.verify  scriptSig scriptPubKey flags tx idx
+                                                Model.ScriptEval.verifyScript with the concrete
+                                                signature checker below → `ok` | `err:<family>`
+    c05.case    scriptSig scriptPubKey flags tx idx ht edit
+                                                → `<base>#<edited>#<tx'>#<class>#<pred>`
+        base    = verification against `tx`, edited = against `tx' = apply edit tx` (same scriptSig,
+                  scriptPubKey, index), class = table row of the edit for (ht, idx), pred = what the
+                  table theorems of Props/C05.lean predict for the digest `_CheckSig` verifies:
+                  `same`   (uncommitted edit; committed edit that leaves every committed part as it was;
+                            both transactions outside the regular case: digest is the constant 1)
+                  `differs` (some committed part changed, or the edit moves the transaction into /
+                            out of the "return one" case)
+        edit `-` = no edit (class `-`, pred `same`).
+
+  Signature checker: `sigCheck body pubkey scriptCode hashType` = ECDSA (Crypto/Secp256k1, strict DER,
+  SEC1 keys) over the digest `Spec.Sighash.legacySighash scriptCode tx idx hashType` — the REFERENCE
+  signature hash about which Props/C05.lean speaks (C03 proves the library's algorithm equal to it).
+  Of c06's files only `Model.ScriptEval.verifyScript` / `Ctx` / `Err.toExc` and `Spec.Script.Env` /
+  `Flags` are used.
+
+    c05.tmpl    kind m keys sigs                the template scripts of Spec/Templates (about which the
+                                                acceptance theorems speak) → `<scriptPubKey>#<scriptSig>`;
+                                                kind ∈ p2pk p2pkh ms p2sh-p2pk p2sh-p2pkh p2sh-ms, keys / sigs
+                                                `,`-separated hex; compared with what the library builds
+
+  edit syntax:  ph:k:hex | pn:k:n | ss:k:hex | sq:k:n | va:k:int | pk:k:hex | ii:k:txin | ri:k | wi:k:l
+              | io:k:txout | ro:k | wo:k:l | lt:n | ve:int | wt:wit         (txin/txout/wit as in TxFmt)
+-/
 import Driver.Util
+import Driver.TxFmt
+import BtcVerif.Spec.Commit
+import BtcVerif.Spec.Templates
+import BtcVerif.Model.ScriptEval
+import BtcVerif.Crypto.Sha256
+import BtcVerif.Crypto.Sha1
+import BtcVerif.Crypto.Ripemd160
+import BtcVerif.Crypto.Secp256k1
+import BtcVerif.Crypto.Der
 
 namespace Driver.C05
-open BtcVerif Driver
+open BtcVerif Driver BtcVerif.Spec.Script BtcVerif.Spec.Commit
 
-def handle (_op : String) (_args : List String) : Option String := none
+/-- `CECKey.set_pubkey` + `CECKey.verify` on the property's signature domain -/
+def ecdsaCheck (body pubkey digest : Bytes) : Bool :=
+  match Crypto.Secp256k1.decode pubkey, Crypto.Secp256k1.derDecodeStrict body with
+  | some P, some (r, s) => Crypto.Secp256k1.verify P (Crypto.Secp256k1.digestNat digest) r s
+  | _, _ => false
+
+def concreteEnv (tx : Tx) (idx : Nat) : Env :=
+  { hashes := { sha1 := Crypto.sha1, ripemd160 := Crypto.ripemd160, sha256 := Crypto.sha256 }
+    sigCheck := fun body pubkey script ht =>
+      ecdsaCheck body pubkey (Spec.Sighash.legacySighash script tx idx ht).1 }
+
+def mkCtx (tx : Tx) (idx : Nat) : Model.ScriptEval.Ctx :=
+  { env := concreteEnv tx idx, inIdx := idx, nVin := tx.vin.length, nVout := tx.vout.length }
+
+def parseFlags? (s : String) : Option Flags := do
+  let n ← parseNat? s
+  if n ≥ 16 then none else
+  pure { p2sh := n % 2 = 1, nullDummy := n / 2 % 2 = 1, cleanStack := n / 4 % 2 = 1,
+         discourageNops := n / 8 % 2 = 1 }
+
+def verify (sig spk : Bytes) (fl : Flags) (tx : Tx) (idx : Nat) : String :=
+  match Model.ScriptEval.verifyScript (mkCtx tx idx) fl sig spk with
+  | .ok _ => "ok"
+  | .error e => "err:" ++ e.toExc.family
+
+def parseEdit? (s : String) : Option Edit :=
+  match s.splitOn ":" with
+  | ["ph", k, h] => do pure (.setPrevHash (← parseNat? k) (← parseHex? h))
+  | ["pn", k, n] => do pure (.setPrevN (← parseNat? k) (← parseNat? n))
+  | ["ss", k, h] => do pure (.setScriptSig (← parseNat? k) (← parseHex? h))
+  | ["sq", k, n] => do pure (.setSequence (← parseNat? k) (← parseNat? n))
+  | ["va", k, v] => do pure (.setValue (← parseNat? k) (← parseInt? v))
+  | ["pk", k, h] => do pure (.setSpk (← parseNat? k) (← parseHex? h))
+  | ["ii", k, x] => do pure (.insertInput (← parseNat? k) (← TxFmt.parseTxIn? x))
+  | ["ri", k] => do pure (.removeInput (← parseNat? k))
+  | ["wi", k, l] => do pure (.swapInputs (← parseNat? k) (← parseNat? l))
+  | ["io", k, o] => do pure (.insertOutput (← parseNat? k) (← TxFmt.parseTxOut? o))
+  | ["ro", k] => do pure (.removeOutput (← parseNat? k))
+  | ["wo", k, l] => do pure (.swapOutputs (← parseNat? k) (← parseNat? l))
+  | ["lt", n] => do pure (.setLockTime (← parseNat? n))
+  | ["ve", v] => do pure (.setVersion (← parseInt? v))
+  | "wt" :: rest => do pure (.setWitness (← TxFmt.parseWit? (":".intercalate rest)))
+  | _ => none
+
+def className (ht idx : Nat) (e : Edit) : String :=
+  if Committed ht idx e then "committed" else "uncommitted"
+
+/-- what the table theorems predict for the digest that is verified -/
+def predict (ht idx : Nat) (e : Edit) (t : Tx) : String :=
+  let t' := apply e t
+  if Uncommitted ht idx e then "same"                         -- uncommitted_edit_preserves
+  else
+    let r := decide (Regular ht idx t)
+    let r' := decide (Regular ht idx t')
+    if r && r' then
+      (if (changedParts ht idx t t').isEmpty then "same"      -- agree_sighash_eq + changedParts_spec
+       else "differs")                                        -- committed_edit_changes
+    else if !r && !r' then "same"                             -- irregular_sighash
+    else "differs"
+
+def hash160 (x : Bytes) : Bytes := Crypto.ripemd160 (Crypto.sha256 x)
+
+open BtcVerif.Spec.Templates in
+def template (kind : String) (m : Nat) (keys sigs : List Bytes) : Option (Bytes × Bytes) :=
+  match kind, keys, sigs with
+  | "p2pk", [k], [s] => some (p2pkScript k, p2pkScriptSig s)
+  | "p2pkh", [k], [s] => some (p2pkhScript (hash160 k), p2pkhScriptSig s k)
+  | "ms", _, _ => some (multisigScript m keys, multisigScriptSig sigs)
+  | "p2sh-p2pk", [k], [s] =>
+      some (p2shScript (hash160 (p2pkScript k)), p2shScriptSig (p2pkScriptSig s) (p2pkScript k))
+  | "p2sh-p2pkh", [k], [s] =>
+      let r := p2pkhScript (hash160 k)
+      some (p2shScript (hash160 r), p2shScriptSig (p2pkhScriptSig s k) r)
+  | "p2sh-ms", _, _ =>
+      let r := multisigScript m keys
+      some (p2shScript (hash160 r), p2shScriptSig (multisigScriptSig sigs) r)
+  | _, _, _ => none
+
+def handle (op : String) (args : List String) : Option String :=
+  match op, args with
+  | "c05.table", [ht, i, e] => some <|
+      match parseNat? ht, parseNat? i, parseEdit? e with
+      | some ht, some i, some e => className ht i e
+      | _, _, _ => badArgs
+  | "c05.apply", [e, tx] => some <|
+      match parseEdit? e, TxFmt.parseTx? tx with
+      | some e, some tx => TxFmt.showTx (apply e tx)
+      | _, _ => badArgs
+  | "c05.tmpl", [kind, m, keys, sigs] => some <|
+      match parseNat? m, parseHexList? keys, parseHexList? sigs with
+      | some m, some keys, some sigs =>
+          (match template kind m keys sigs with
+           | some (spk, ssig) => toHex spk ++ "#" ++ toHex ssig
+           | none => badArgs)
+      | _, _, _ => badArgs
+  | "c05.verify", [sig, spk, fl, tx, idx] => some <|
+      match parseHex? sig, parseHex? spk, parseFlags? fl, TxFmt.parseTx? tx, parseNat? idx with
+      | some sig, some spk, some fl, some tx, some idx => verify sig spk fl tx idx
+      | _, _, _, _, _ => badArgs
+  | "c05.case", [sig, spk, fl, tx, idx, ht, e] => some <|
+      match parseHex? sig, parseHex? spk, parseFlags? fl, TxFmt.parseTx? tx, parseNat? idx, parseNat? ht with
+      | some sig, some spk, some fl, some tx, some idx, some ht =>
+          let base := verify sig spk fl tx idx
+          if e == "-" then s!"{base}#{base}#{TxFmt.showTx tx}#-#same" else
+          (match parseEdit? e with
+           | some e =>
+               let tx' := apply e tx
+               s!"{base}#{verify sig spk fl tx' idx}#{TxFmt.showTx tx'}#{className ht idx e}#{predict ht idx e tx}"
+           | none => badArgs)
+      | _, _, _, _, _, _ => badArgs
+  | _, _ => none
 
 end Driver.C05
